@@ -1024,11 +1024,27 @@ theorem finalize_xml_le (ft : FloatText) (e e' : EW) (tr : String → Option Str
   unfold EW.finalize at h
   rw [hs] at h
   dsimp only at h
+  split at h
+  · cases h
   rw [ht] at h
   dsimp only at h
   split at h
   · cases h
   · unfold maxXmlSize; omega
+
+/-- **the writer refuses strings XML cannot carry**: after a successful `finalize` the serialised document
+    consists of XML characters only -/
+theorem finalize_xml_chars (ft : FloatText) (e e' : EW) (tr : String → Option String)
+    (h : EW.finalize ft e tr = .ok e') :
+    ∀ x0, serializeRoot ft e.root e.pcs e.imgs e.exts = some x0 → x0.toList.all xmlChar = true := by
+  intro x0 hs
+  unfold EW.finalize at h
+  rw [hs] at h
+  dsimp only at h
+  split at h
+  · cases h
+  · rename_i hc
+    simpa using hc
 
 /-- `ew_finalize_abs` with the XML text and the header fields identified -/
 theorem finalize_exact (ft : FloatText) (e e' : EW) (tr : String → Option String)
@@ -1042,6 +1058,8 @@ theorem finalize_exact (ft : FloatText) (e e' : EW) (tr : String → Option Stri
   | some xml0 =>
     rw [hs] at h
     dsimp only at h
+    split at h
+    · cases h
     cases ht : tr xml0 with
     | none => rw [ht] at h; cases h
     | some xml =>
@@ -1841,6 +1859,7 @@ theorem session_instance (ft : FloatText) (fp : FloatParse) :
       (∀ d, e.root.creation = some d → MT.F64OK ft fp d.gpsTime) ∧
       (∀ i ∈ e.imgs, MT.Image.OK ft fp i) ∧
       ((∀ xml, serializeRoot ft e.root e.pcs e.imgs e.exts = some xml → (utf8 xml).length ≤ maxXmlSize) →
+       (∀ xml, serializeRoot ft e.root e.pcs e.imgs e.exts = some xml → xml.toList.all xmlChar = true) →
         ∃ e', EW.finalize ft e (fun x => some x) = .ok e' ∧
         (e'.pw.dev.data.length < 2 ^ 64 → ∀ pc ∈ e.pcs, MT.PointCloud.OK ft fp e.exts pc) ∧
         (e'.pw.dev.data.length < 2 ^ 64 →
@@ -1858,9 +1877,9 @@ theorem session_instance (ft : FloatText) (fp : FloatParse) :
     intro i hi; rw [himgs] at hi; cases hi
   refine ⟨e, ops, b, pc, s1, s2, n, fun _ => MT.rootDoc ft e.root e.pcs e.imgs e.exts, hS,
     fun _ _ => rfl, hcr, himg, ?_⟩
-  intro hmax
-  obtain ⟨e', he'⟩ := BlobRT.finalize_ok ft e (fun x => some x) (sess_inv hS : TopInv e.pw _).inv x0 x0 hx0 rfl
-    (hmax x0 hx0)
+  intro hmax hchars
+  obtain ⟨e', he'⟩ := BlobRT.finalize_ok ft e (fun x => some x) (sess_inv hS : TopInv e.pw _).inv x0 x0 hx0
+    (hchars x0 hx0) rfl (hmax x0 hx0)
   have hokpc : e'.pw.dev.data.length < 2 ^ 64 → ∀ pc' ∈ e.pcs, MT.PointCloud.OK ft fp e.exts pc' := by
     intro hsz pc' hpc'
     rw [hpcs] at hpc'
@@ -1879,9 +1898,12 @@ theorem session_instance (ft : FloatText) (fp : FloatParse) :
 /-- **every hypothesis of `session_roundtrip_tr`, the size bounds included, holds for the example session**
     closed by `finalize_customized_xml` with a transformer that replaces the XML by the 4 bytes `<x/>` (whose
     length the kernel can compute; the front end `xo` still returns the tree of the writer's document): the
-    theorem then yields, without any remaining hypothesis, that `E57Reader::new` opens the device bytes and
+    theorem then yields — the one remaining hypothesis being that the float texts `ft` prints into this session's
+    document are made of characters XML can carry, so that `finalize` does not refuse it — that `E57Reader::new` opens the device bytes and
     the blob and the two points are read back. -/
-theorem closed_instance (ft : FloatText) (fp : FloatParse) :
+theorem closed_instance (ft : FloatText) (fp : FloatParse)
+    (hchars : ∀ (e : EW) ops b pc s1 s2 n, Sess e .top ops [.blob b exData s1, .cloud pc pts s2 n] →
+      ∀ x0, serializeRoot ft e.root e.pcs e.imgs e.exts = some x0 → x0.toList.all xmlChar = true) :
     ∃ (e e' : EW) (ops : List WOp) (b : BlobRef) (pc : PointCloud) (s1 s2 n : Nat) (xo : XmlOracle)
       (tr : String → Option String) (rd : Reader),
       Sess e .top ops [.blob b exData s1, .cloud pc pts s2 n] ∧ EW.finalize ft e tr = .ok e' ∧
@@ -1895,8 +1917,8 @@ theorem closed_instance (ft : FloatText) (fp : FloatParse) :
   obtain ⟨e, ops, b, pc, s1, s2, n, hS, hroot, hpcs, himgs, hexts, hlen, hok⟩ := ex_sess
   obtain ⟨x0, hx0⟩ := ex_serialize ft e hroot
   have hT : TopInv e.pw _ := sess_inv hS
-  obtain ⟨e', he'⟩ := BlobRT.finalize_ok ft e (fun _ => some "<x/>") hT.inv x0 "<x/>" hx0 rfl
-    (by decide +kernel)
+  obtain ⟨e', he'⟩ := BlobRT.finalize_ok ft e (fun _ => some "<x/>") hT.inv x0 "<x/>" hx0
+    (hchars e ops b pc s1 s2 n hS x0 hx0) rfl (by decide +kernel)
   have hx : (utf8 "<x/>").length = 4 := by rw [utf8_length]; decide
   have hsz : e'.pw.dev.data.length < 2 ^ 64 := by
     obtain ⟨y0, y, hy0, hy, i', a', d'⟩ := finalize_exact ft e e' _ hT.inv he'
@@ -1957,8 +1979,8 @@ theorem sizes_instance (ft : FloatText) (fp : FloatParse) :
     rw [this]
     exact ⟨_, rfl⟩
   obtain ⟨x0, hx0⟩ := hs
-  obtain ⟨e', he'⟩ := BlobRT.finalize_ok ft exE0 (fun _ => some "<x/>") hT.inv x0 "<x/>" hx0 rfl
-    (by decide +kernel)
+  obtain ⟨e', he'⟩ := BlobRT.finalize_ok ft exE0 (fun _ => some "<x/>") hT.inv x0 "<x/>" hx0
+    (Interrupt.exE0_chars ft x0 hx0) rfl (by decide +kernel)
   have hx : (utf8 "<x/>").length = 4 := by rw [utf8_length]; decide
   refine ⟨exE0, e', _, fun _ => MT.rootDoc ft exE0.root [] [] [], fun _ => some "<x/>", S0, he', ?_,
     ?_, fun _ _ _ _ => rfl, (by intro d h; cases h), (by intro pc h; cases h), (by intro i h; cases h)⟩
